@@ -455,6 +455,86 @@ pub fn g_setup_prefixes(w: &mut W, k: usize, shard: u64, nshards: u64) {
     rec(w, &g, &mut vec![], k, true, &mut idx, shard, nshards);
 }
 
+/// every multiset of pieces a side can have placed (counts of e m h d c r within the complement), for Gold and for
+/// Silver (after a random full Gold army): one placement order reaching it (random order of that multiset), the
+/// offered kinds watched at the end and at two random points on the way
+pub fn g_setup_counts(w: &mut W, rng: &mut Rng, shard: u64, nshards: u64, keep_num: u64, keep_den: u64) {
+    let letters = ['r', 'c', 'd', 'h', 'm', 'e'];
+    let maxc = [8u64, 2, 2, 2, 1, 1];
+    let mut idx = 0u64;
+    for silver in [false, true] {
+        for r in 0..=maxc[0] {
+            for c in 0..=maxc[1] {
+                for d in 0..=maxc[2] {
+                    for h in 0..=maxc[3] {
+                        for m in 0..=maxc[4] {
+                            for e in 0..=maxc[5] {
+                                let counts = [r, c, d, h, m, e];
+                                let total: u64 = counts.iter().sum();
+                                if total == 0 || total > 16 {
+                                    continue;
+                                }
+                                idx += 1;
+                                let pick = rng.below(keep_den) < keep_num;
+                                // the rng is advanced identically on every shard
+                                let mut seq: Vec<char> = vec![];
+                                for (k, n) in counts.iter().enumerate() {
+                                    for _ in 0..*n {
+                                        seq.push(letters[k]);
+                                    }
+                                }
+                                for i in (1..seq.len()).rev() {
+                                    let j = rng.below(i as u64 + 1) as usize;
+                                    seq.swap(i, j);
+                                }
+                                let mut gold_army: Vec<char> = "rrrrrrrrhcdmedch".chars().collect();
+                                for i in (1..gold_army.len()).rev() {
+                                    let j = rng.below(i as u64 + 1) as usize;
+                                    gold_army.swap(i, j);
+                                }
+                                let w1 = rng.below(total);
+                                let w2 = rng.below(total);
+                                if idx % nshards != shard || !pick {
+                                    continue;
+                                }
+                                w.begin(if silver { "setup-counts-silver" } else { "setup-counts-gold" });
+                                let mut g = w.init_initial();
+                                let mut okc = true;
+                                if silver {
+                                    for a in gold_army.iter() {
+                                        let act = Action::from_str(&a.to_string()).unwrap();
+                                        match w.act(&g, &act) {
+                                            Some(n) => g = n,
+                                            None => {
+                                                okc = false;
+                                                break;
+                                            }
+                                        }
+                                    }
+                                }
+                                if okc {
+                                    for (i, a) in seq.iter().enumerate() {
+                                        let act = Action::from_str(&a.to_string()).unwrap();
+                                        if i as u64 == w1 || i as u64 == w2 {
+                                            w.watch(&g, 0);
+                                        }
+                                        match w.act(&g, &act) {
+                                            Some(n) => g = n,
+                                            None => break,
+                                        }
+                                    }
+                                    w.watch(&g, 0);
+                                }
+                                w.end();
+                            }
+                        }
+                    }
+                }
+            }
+        }
+    }
+}
+
 // ---------------------------------------------------------------------------------------
 // G-play
 
@@ -1173,9 +1253,13 @@ pub fn g_matrix(w: &mut W, rng: &mut Rng, variants: u64) {
                             cells[sq] = Some((rng.chance(1, 2), KINDS[1 + rng.below(4) as usize]));
                         }
                     }
-                    for (sq, g) in [(6 * 8, true), (8 + 7, false)] {
-                        if cells[sq].is_none() && sq != d {
-                            cells[sq] = Some((g, Piece::Rabbit));
+                    // mostly both sides keep a rabbit far away; sometimes not, so that the piece lost at the trap can be
+                    // a side's last rabbit (result at the next turn start)
+                    if !rng.chance(1, 4) {
+                        for (sq, g) in [(6 * 8, true), (8 + 7, false)] {
+                            if cells[sq].is_none() && sq != d {
+                                cells[sq] = Some((g, Piece::Rabbit));
+                            }
                         }
                     }
                     // keep the intended capture set-up: only remove trap pieces that are ALREADY unsupported
@@ -1657,6 +1741,39 @@ pub fn q_case(w: &mut W, which: u64, s: &str) {
     w.stat(&format!("str.outcome.{}.{}", which, r[0]), 1);
     line(&mut w.out, 'P', &r);
     w.states += 1;
+}
+
+/// every Unicode scalar value >= 0x80 in every position of the shortest accepted forms ("e", "a2", "a2n", "n"):
+/// whatever is not rejected becomes a case (the exactness clause of C16: only printed forms are accepted)
+pub fn g_str_unicode(w: &mut W) {
+    let mut scanned = 0u64;
+    for cp in 0x80u32..0x110000 {
+        let c = match char::from_u32(cp) {
+            Some(c) => c,
+            None => continue,
+        };
+        scanned += 1;
+        let one = c.to_string();
+        let cands: [(u64, String); 9] = [
+            (0, one.clone()),
+            (1, one.clone()),
+            (2, one.clone()),
+            (3, one.clone()),
+            (1, format!("{}2", c)),
+            (1, format!("a{}", c)),
+            (0, format!("{}2n", c)),
+            (0, format!("a{}n", c)),
+            (0, format!("a2{}", c)),
+        ];
+        for (which, s) in cands.iter() {
+            let r = run_parser(*which, s);
+            if r[0] != 0 {
+                q_case(w, *which, s);
+                w.stat("str.unicode.not_rejected", 1);
+            }
+        }
+    }
+    w.stat("str.unicode.scalars_scanned", scanned);
 }
 
 pub fn g_str_small(w: &mut W, seed: u64, shard: u64, nshards: u64, thorough: bool) {
